@@ -445,3 +445,21 @@ Definition norm (l : lroot) : rfield :=
   | [] => mk_rfield [] IEmpty []
   | (w, i) :: rest => mk_rfield w i rest
   end.
+
+(* ------------------------------------------------------------------ the domain of the operands *)
+(* the texts an operand is made of are non-empty runs of identifier characters; an entry operand
+   has at least one alternative; operands are Entry::from(vec![Relation::new(name, version), ..])
+   and Relation::new(name, version) (RelEditSpec.new_only) *)
+Definition relrec_new_ok (r : relrec) : bool :=
+  ident_ok (rr_name r) && match rr_ver r with Some (_, v) => ident_ok v | None => true end.
+Definition profile_ok (p : profile) : bool := match p with PEnabled n | PDisabled n => ident_ok n end.
+Definition operands_ok (o : aop) : bool :=
+  match o with
+  | APush e | AInsert _ e | AReplace _ e => nonempty e && forallb relrec_new_ok e && forallb new_only e
+  | AEPush _ r | AEReplace _ _ r => relrec_new_ok r && new_only r
+  | ASetVersion _ _ (Some (_, v)) => ident_ok v
+  | ASetArchqual _ _ q => ident_ok q
+  | ASetArchs _ _ a => nonempty a && forallb ident_ok a
+  | AAddProfile _ _ g => nonempty g && forallb profile_ok g
+  | _ => true
+  end.
